@@ -46,7 +46,7 @@ PH_stop == 10
 PH_patch == 11
 EmitPhases == {PH_body, PH_close, PH_collapse, PH_pad}
 
-CntInit == [T |-> -1, body |-> 0, tail |-> 0, ops |-> 0, stop |-> 0, frameAt |-> 0, skip |-> FALSE, pieces |-> 0]
+CntInit == [T |-> -1, body |-> 0, tail |-> 0, ops |-> 0, stop |-> 0, frameAt |-> 0, skip |-> FALSE, pieces |-> 0, mbroken |-> FALSE]
 GsInit == [stk |-> <<>>, memo |-> <<>>, m |-> 0]
 StInit == [stk |-> <<>>, memo |-> <<>>, cls |-> "", why |-> "", kept |-> 0, key |-> -1]
 LexInit == [op |-> -1, known |-> FALSE, nxt |-> 0, ok |-> FALSE, why |-> "", arg |-> -1]
@@ -126,12 +126,12 @@ EmitFindings(r, k, e, c, bytes, lx, step, g2, isBody, more) ==
    \o (IF safe /\ lx.known /\ lx.op = B_PROTO /\ e.ph # PH_proto THEN <<V(r, k, "C05", "PROTO outside the header")>> ELSE <<>>)
    \o (IF safe /\ c.P = 0 /\ \E j \in (pos + 1)..e.len : bytes[j] > 127
        THEN <<V(r, k, "C05", "protocol 0 output is not 7-bit ASCII")>> ELSE <<>>)
-   \o (IF judged /\ single /\ e.op >= 0 /\ lx.op \notin Family(e.op)
+   \o (IF judged /\ ~cnt.mbroken /\ single /\ e.op >= 0 /\ lx.op \notin Family(e.op)
        THEN <<V(r, k, "C17", "claimed opcode differs from the emitted bytes")>> ELSE <<>>)
    \o (IF stepped /\ step.cls # "" THEN <<V(r, k, PropertyOf(step.cls), step.why)>> ELSE <<>>)
-   \o (IF judged /\ e.ph # PH_stop /\ step.cls \in {"", "kind"} /\ ~MirrorFrom(g2, step, Min(e.kept, step.kept))
+   \o (IF judged /\ ~cnt.mbroken /\ e.ph # PH_stop /\ step.cls \in {"", "kind"} /\ ~MirrorFrom(g2, step, Min(e.kept, step.kept))
        THEN <<V(r, k, "C17", "simulated stack differs from the reference stack")>> ELSE <<>>)
-   \o (IF judged /\ single /\ step.cls \in {"", "kind"}
+   \o (IF judged /\ ~cnt.mbroken /\ single /\ step.cls \in {"", "kind"}
           /\ {e.memo[j][1] : j \in {x \in 1..Len(e.memo) : e.memo[x][2] # 255}} # (IF step.key = -1 THEN {} ELSE {step.key})
        THEN <<V(r, k, "C17", "simulated memo differs from the reference memo")>> ELSE <<>>)
    \o (IF c.rate = 0 /\ (e.mu # <<>> \/ e.rw # <<>> \/ e.rwn = 1)
@@ -193,15 +193,9 @@ StepEvent ==
              /\ UNCHANGED <<broken, cnt>>
              /\ msgs' = (IF e.len # pos THEN <<V(r, k, "C11", "bytes appended outside an opcode step")>> ELSE <<>>)
                      \o (IF e.ph = PH_proto /\ Safe(c) /\ c.P >= 2 THEN <<V(r, k, "C05", "no PROTO header")>> ELSE <<>>)
-                     \o (IF e.ph = PH_fix /\ Safe(c) /\ ~broken /\ ~MirrorFrom(gs', st, Min(e.kept, Len(st.stk)))
+                     \o (IF e.ph = PH_fix /\ Safe(c) /\ ~broken /\ ~cnt.mbroken /\ ~MirrorFrom(gs', st, Min(e.kept, Len(st.stk)))
                          THEN <<V(r, k, "C17", "simulated stack differs from the reference stack")>> ELSE <<>>)
           ELSE
-             /\ cnt' = [cnt EXCEPT !.body = @ + (IF e.ph = PH_body /\ ~more THEN 1 ELSE 0),
-                                   !.tail = @ + (IF e.ph \in {PH_close, PH_collapse, PH_pad} /\ ~more THEN 1 ELSE 0),
-                                   !.pieces = IF more THEN @ + 1 ELSE 0,
-                                   !.ops = @ + 1,
-                                   !.stop = @ + (IF lexd'.known /\ lexd'.op = B_STOP THEN 1 ELSE 0),
-                                   !.frameAt = IF e.ph = PH_reserve THEN pos + 1 ELSE @]
              /\ msgs' = EmitFindings(r, k, e, c, bytes, lexd', st', gs', e.ph = PH_body, more)
                      \o (IF e.ph = PH_proto /\ Safe(c) /\ (c.P < 2 \/ lexd'.op # B_PROTO \/ lexd'.arg # c.P)
                          THEN <<V(r, k, "C05", "header is not PROTO <P>")>> ELSE <<>>)
@@ -211,8 +205,14 @@ StepEvent ==
                          THEN <<V(r, k, "C06", "FRAME length differs from the number of bytes that follow")>> ELSE <<>>)
                      \o (IF e.ph = PH_stop /\ lexd'.op # B_STOP THEN <<V(r, k, "C04", "final opcode is not STOP")>> ELSE <<>>)
                      \o (IF e.ph \in EmitPhases /\ cnt.pieces = 0 /\ ~more THEN DriftFindings(r, k, e, c, gs') ELSE <<>>)
-             /\ broken' = (broken \/ ~(lexd'.known /\ lexd'.ok /\ (lexd'.nxt = e.len + 1 \/ more)) \/ st'.cls # ""
-                           \/ \E j \in 1..Len(msgs') : msgs'[j][1] = "V" /\ msgs'[j][4] = "C17")
+             /\ broken' = (broken \/ ~(lexd'.known /\ lexd'.ok /\ (lexd'.nxt = e.len + 1 \/ more)) \/ st'.cls # "")
+             /\ cnt' = [cnt EXCEPT !.body = @ + (IF e.ph = PH_body /\ ~more THEN 1 ELSE 0),
+                                   !.tail = @ + (IF e.ph \in {PH_close, PH_collapse, PH_pad} /\ ~more THEN 1 ELSE 0),
+                                   !.pieces = IF more THEN @ + 1 ELSE 0,
+                                   !.mbroken = @ \/ \E j \in 1..Len(msgs') : msgs'[j][1] = "V" /\ msgs'[j][4] = "C17",
+                                   !.ops = @ + 1,
+                                   !.stop = @ + (IF lexd'.known /\ lexd'.op = B_STOP THEN 1 ELSE 0),
+                                   !.frameAt = IF e.ph = PH_reserve THEN pos + 1 ELSE @]
     /\ UNCHANGED run
 
 (* after the last event of a run: whole-output checks, then the next run *)
